@@ -20,7 +20,7 @@ type c18 struct{ base }
 
 func init() {
 	core.Register(c18{base{id: "C18", level: "exploration", quickB: 16, thoroughB: 32,
-		rule:        "callbacks retain the library's own strings and slices without copying (query texts, parameter values, client parameter keys/values, password) next to what the harness knows it sent; every retained item is re-compared at every later callback, at connection end, and again after each of the next six connections (other limits, other traffic) was served; old portals are executed late so parameters held by the library's portal cache are re-read; the parameter list itself is retained too, portals are closed later and a quarter of the statements fail after retaining. Histories of 5-200 later messages with sizes around the 4 KiB allocation granule (1, 100, 4000-4200, 8191-8193), around L (L-1, L, oversized L+1..3L skipped), COPY streams of many chunks, Parse messages with unread parameter-OID tails, for L in {4096, 8192, 65536}; built with checkptr (unsafe string views). Non-trivial = at least 3 retained items survive at least 5 later messages including a granule-crossing or oversized one; distinct = (L, message-kind/size-class sequence).",
+		rule:        "callbacks retain the library's own strings and slices without copying (query texts, parameter values, client parameter keys/values, password) next to what the harness knows it sent; every retained item is re-compared at every later callback, at connection end, and again after each of the next six connections (other limits, other traffic) was served; old portals are executed late so parameters held by the library's portal cache are re-read; the parameter list itself is retained too, portals are closed later and a quarter of the statements fail after retaining. Passwords of 1-26 bytes and query texts of 1-7 bytes besides the long ones. Histories of 5-200 later messages with sizes around the 4 KiB allocation granule (1, 100, 4000-4200, 8191-8193), around L (L-1, L, oversized L+1..3L skipped), COPY streams of many chunks, Parse messages with unread parameter-OID tails, for L in {4096, 8192, 65536}; built with checkptr (unsafe string views). Non-trivial = at least 3 retained items survive at least 5 later messages including a granule-crossing or oversized one; distinct = (L, message-kind/size-class sequence).",
 		need:        []string{"retained_items", "recomparisons", "late_portal_executions", "oversized_skipped", "copy_chunks", "granule_crossings", "recomparisons_after_connection_end"},
 		assumptions: append([]string{"the harness's own copies are taken from what it sent, not from the callback arguments"}, commonAssumptions...)}})
 }
@@ -41,6 +41,7 @@ type c18conn struct {
 	rechecks int
 	binds    map[string][][]byte // bind tag (first param) -> params sent
 	lateExec int
+	pw       string // the password this connection logs in with (lengths 1..26)
 }
 
 func (st *c18conn) recheck(when string) {
@@ -68,7 +69,7 @@ func (st *c18conn) keepS(what string, s *string, want string) {
 func c18validator(ctx context.Context, database, username, password string) (context.Context, bool, error) {
 	st := hs.ConnOf(ctx).User.(*c18conn)
 	pw, db, us := password, database, username
-	st.keepS("password", &pw, "secret-password-0123456789")
+	st.keepS("password", &pw, st.pw)
 	st.keepS("database", &db, "retention-db")
 	st.keepS("username", &us, "retention-user")
 	return ctx, true, nil
@@ -196,12 +197,12 @@ func (ch c18) Run(c *core.Ctx) {
 }
 
 func (ch c18) runCase(c *core.Ctx, env *hs.Env, L int, rng *core.Rng, idx int) {
-	st := &c18conn{sentQ: map[string]bool{}, binds: map[string][][]byte{}}
+	st := &c18conn{sentQ: map[string]bool{}, binds: map[string][][]byte{}, pw: core.Pick(rng, []string{"secret-password-0123456789", "s3cr3t", "pw", "x", "1234567"})}
 	cs := map[string]any{"L": L, "index": idx}
 	cl := hs.NewClient(env.Dial(st))
 	cl.C.Send(pg.Startup([][2]string{{"user", "retention-user"}, {"database", "retention-db"}, {"application_name", "retention-app-name-xyz"}}))
 	cl.C.Quiesce()
-	cl.C.Send(pg.Password("secret-password-0123456789"))
+	cl.C.Send(pg.Password(st.pw))
 	if _, ok := cl.C.Quiesce(); !ok {
 		cl.Hung = true
 		hangCheck(c, cl, cs)
@@ -252,6 +253,11 @@ func (ch c18) runCase(c *core.Ctx, env *hs.Env, L int, rng *core.Rng, idx int) {
 			q := text(fmt.Sprintf("q%d.%d:", idx, m), max(n, 12))
 			if len(q) > L-1 {
 				q = q[:L-1]
+			}
+			if rng.Intn(4) == 0 {
+				// a text of a few bytes: the whole message body is smaller than a machine word or two
+				q = core.Pick(rng, []string{"BEGIN", "END", "COMMIT", "x", "go", "SELECT1", "ROLLBAC"})
+				c.Count("tiny_query_texts", 1)
 			}
 			st.sentQ[q] = true
 			in = pg.Query(q)
